@@ -15,7 +15,7 @@ fn cfg() -> TolCfg<'static> {
 }
 
 fn points(mode: Mode) -> Vec<f64> {
-    let step = if mode == Mode::Quick { 16 } else { 1 };
+    let step = if mode == Mode::Quick { 4 } else { 1 };
     let mut v: Vec<f64> = (-3200i32..=3200).step_by(step).map(|k| k as f64 / 64.0).collect();
     let eps64 = f64::EPSILON;
     let eps32 = f32::EPSILON as f64;
@@ -100,7 +100,7 @@ fn main() {
         mode: cli.mode,
         seed: cli.seed,
         start,
-        rule: "sph_j0/1/2 x {plain f32, f64, scalar dual types over both widths, vector and nested types} x the lattice k/64 (quick: k/4) in [-50,50] plus 0, denormals, 1e-300, +-eps/2, +-eps and their float neighbours for both widths, 1e-8, 1e-5, 1e-3 with both signs x {2 generic part assignments with pairwise distinct non-unit parts, the unit seeding}; non-trivial = an operand part is neither 0 nor 1 and the result has a non-zero derivative part".into(),
+        rule: "sph_j0/1/2 x {plain f32, f64, scalar dual types over both widths, vector and nested types} x the lattice k/64 (quick: k/16) in [-50,50] plus 0, denormals, 1e-300, +-eps/2, +-eps and their float neighbours for both widths, 1e-8, 1e-5, 1e-3 with both signs x {2 generic part assignments with pairwise distinct non-unit parts, the unit seeding}; non-trivial = an operand part is neither 0 nor 1 and the result has a non-zero derivative part".into(),
         assumptions: vec![
             "tolerance per part: 128 u (M + E^def) + 16 u sum|N^k|: Faa di Bruno majorant, propagated bound of the closed form the property quotes (x != 0), and the absolute rounding level of a well-conditioned evaluation (all derivatives of j_n are bounded by 1)".into(),
             "reference: Maclaurin series for |x| < 1, closed forms in double-double beyond, series jets from the closed forms; audited against mpmath".into(),
